@@ -164,6 +164,8 @@ def _write_payloads(d, slots, prefix="", fifo_index=None):
     for i, (uri, n, fill) in enumerate(slots):
         p = os.path.join(d, f"{prefix}p{i}.bin")
         data = payload_bytes(n, fill)
+        if os.path.lexists(p):
+            os.unlink(p)
         if fifo_index is not None and i == fifo_index:
             # the payload arrives through a named pipe (process substitution, a generator feeding the tool): a path like any other
             os.mkfifo(p)
@@ -192,11 +194,41 @@ def _nt_key(producer, eb, pairs):
     return (producer, eb, key) if nt else None, [k[2] for k in key]
 
 
+def _written(out, stale):
+    """Did the (refused) run write an output? With an earlier output at the path: only if the file is there and no longer the earlier one."""
+    if not os.path.exists(out):
+        return False
+    if stale is None:
+        return True
+    with open(out, "rb") as fh:
+        return fh.read() != stale
+
+
 def _judge(case, acc, main, d):
     producer = case["producer"]
     eb = case["eb"]
     out = os.path.join(d, "out.cache")
     expect_reject = None
+    stale = None
+    if case.get("prior"):
+        # the directory is not fresh: an earlier run of the tool (other, mostly longer payloads) used the same payload paths and the same
+        # output path in this process. What the present run publishes must describe the files as they are NOW, and nothing of the earlier
+        # output may survive in the new one.
+        pr = case["prior"]
+        ins0, _ = _write_payloads(d, pr["slots"], prefix="i0" if producer == "merge" else "")
+        try:
+            main(cache_create_subcommand="from_payloads", eb_size=pr["eb"], input=ins0, output_file=out)
+        except Exception:
+            pass  # the earlier run is not judged here
+        if not os.path.exists(out):
+            with open(out, "wb") as fh:
+                fh.write(b"\xbf\x61z\x5a\x00\x00\x1b\x58" + bytes(7000) + b"\xff")
+        if producer in ("envelope", "envelope-tree"):
+            import shutil
+
+            shutil.copy(out, os.path.join(d, "out.suit"))
+        with open(out, "rb") as fh:
+            stale = fh.read()
     if producer == "payloads":
         inputs, pairs = _write_payloads(d, case["slots"], fifo_index=case.get("fifo"))
         kwargs = dict(cache_create_subcommand="from_payloads", eb_size=eb, input=inputs, output_file=out)
@@ -269,7 +301,7 @@ def _judge(case, acc, main, d):
     except Exception as e:  # rejection by the tool
         raised = e
     nt_key, branches = _nt_key(producer, eb, pairs)
-    classes = [f"producer:{producer}"] + [f"branch:{b}" for b in set(branches)]
+    classes = [f"producer:{producer}"] + [f"branch:{b}" for b in set(branches)] + (["prior-run-in-same-directory"] if stale is not None else [])
     if producer == "envelope-tree":
         if any(ch["deps"] for ch in case["deps"]):
             classes.append("tree:depth>=2")
@@ -279,11 +311,11 @@ def _judge(case, acc, main, d):
         acc.case(nt_key=("dup", producer, eb, len(pairs)), classes=classes + ["negative:duplicate-uri"], sample=case, sample_key=f"dup/{producer}")
         if raised is None:
             raise Violation("duplicate URI accepted" + (" and silently overwritten" if os.path.exists(out) else ""), "rejection")
-        if os.path.exists(out):
+        if _written(out, stale):
             raise Violation(f"duplicate URI rejected ({type(raised).__name__}) but an output file was written", "no output file")
         return
     if raised is not None:
-        if os.path.exists(out):
+        if _written(out, stale):
             raise Violation(f"{type(raised).__name__} raised but an output file was written", "no output file on rejection")
         if too_long and isinstance(raised, ValueError):
             acc.case(classes=classes + ["rejected:padding>0xFFFF"])
@@ -436,7 +468,9 @@ def run_shard(ctx, spec):
 
         tree = st.builds(lambda eb, t: dict(_tree_unique(t), producer="envelope-tree", eb=eb), ebs, tree_s(0))
         treedup = st.builds(lambda eb, t, i, j: dict(_tree_dup(_tree_unique(t), i, j), producer="envelope-tree", eb=eb), ebs, tree_s(0), st.integers(0, 9), st.integers(0, 9))
-        strat = st.one_of(pay, pay, merge, merge, paydup, mergedup, envp, tree, tree, treedup)
+        prior = st.builds(lambda e, sl: {"eb": e, "slots": sl + [["zz-prior", 7000, 3]]}, ebs, slots(1, 4, True))
+        again = st.builds(lambda c, pr: dict(c, prior=pr), st.one_of(pay, pay, merge, envp, tree, paydup), prior)
+        strat = st.one_of(pay, pay, merge, merge, paydup, mergedup, envp, tree, tree, treedup, again, again, again)
         run_given(ctx, acc, "seq", strat, lambda c, a: judge(c, a, ctx), seed=ctx.seed * 1000 + spec["i"], n=spec["n"])
     return acc
 
@@ -496,6 +530,6 @@ def finalize(ctx, m, ev):
     ev["coverage"]["exhaustive_scope"] = "plane eb x residue x {first,later}; sequences are sampled"
     if c.get("accepted", 0) < 0.5 * m["evals"]:
         raise boot.HarnessError(f"only {c.get('accepted', 0)} of {m['evals']} cases were accepted by the tool: check is vacuous")
-    for need in ("branch:none", "branch:short", "branch:long", "negative:duplicate-uri", "producer:merge", "producer:envelope", "producer:envelope-tree", "tree:depth>=2", "tree:duplicate-across-levels"):
+    for need in ("branch:none", "branch:short", "branch:long", "negative:duplicate-uri", "producer:merge", "producer:envelope", "producer:envelope-tree", "tree:depth>=2", "tree:duplicate-across-levels", "prior-run-in-same-directory"):
         if not c.get(need):
             raise boot.HarnessError(f"interesting class {need} is empty")
